@@ -138,12 +138,28 @@ ParseI64(bs) ==
                      /\ \A i \in 1..Len(ds) : IsDigit(ds[i])
                      /\ (ds[1] = 48 => (Len(ds) = 1 /\ ~neg))
                      /\ Len(ds) <= 19
-        num == [neg |-> neg, mag |-> [i \in 1..Len(ds) |-> ds[Len(ds) + 1 - i] - 48]]
+        num == MkNum(neg, [i \in 1..Len(ds) |-> ds[Len(ds) + 1 - i] - 48])
     IN  IF syntactic /\ InI64(num) THEN [ok |-> TRUE, num |-> num]
         ELSE [ok |-> FALSE, num |-> NumZero]
 
 \* small-int view of an argument: ok, and v clamped to +-10^9 (indexes, counts)
 ArgInt(bs) == LET p == ParseI64(bs) IN [ok |-> p.ok, v |-> NumToInt(p.num), num |-> p.num]
+
+-----------------------------------------------------------------------------
+(* Absolute timestamps in command arguments.  The model clock counts milliseconds
+   from an arbitrary origin (now = 1000000 at the start of a case); a real server needs
+   epoch values that are only known when a case is replayed.  A command vector therefore
+   carries an absolute time as the symbolic argument "@T:<model ms>" (the harness sends
+   the corresponding epoch seconds) or "@M:<model ms>" (epoch milliseconds).  A plain
+   positive number is a real epoch value in the deep past (1970).                       *)
+IsTimeMarker(bs) == Len(bs) >= 4 /\ bs[1] = 64 /\ (bs[2] = 84 \/ bs[2] = 77) /\ bs[3] = 58
+DeepPast == 1
+AbsTimeArg(bs) ==
+    IF IsTimeMarker(bs)
+    THEN LET p == ParseI64(SubSeq(bs, 4, Len(bs))) IN [ok |-> p.ok /\ IsSmall(p.num), pos |-> TRUE, v |-> NumToInt(p.num)]
+    ELSE LET p == ParseI64(bs) IN [ok |-> p.ok, pos |-> p.ok /\ ~p.num.neg /\ p.num.mag # <<>>, v |-> DeepPast]
+TMark(ms) == <<64, 84, 58>> \o Itoa(ms)
+MMark(ms) == <<64, 77, 58>> \o Itoa(ms)
 
 -----------------------------------------------------------------------------
 (* Redis glob (util.c stringmatchlen): * ? [abc] [a-c] [^x] \x            *)
@@ -178,6 +194,32 @@ GlobM(p, s) ==
     ELSE p[1] = s[1] /\ GlobM(Tail(p), Tail(s))
 
 Glob(pattern, str) == GlobM(pattern, str)
+
+-----------------------------------------------------------------------------
+(* Dyadic decimals with at most two fractional digits (multiples of 0.25), as exact
+   quarters: the subset of floats on which float64, long double and exact arithmetic
+   agree and whose shortest decimal rendering is unambiguous.  Magnitudes < 10^8.   *)
+ParseQ(bs) ==
+    LET neg == bs # <<>> /\ bs[1] = 45
+        u == IF neg THEN Tail(bs) ELSE bs
+        dot == IF \E i \in 1..Len(u) : u[i] = 46 THEN CHOOSE i \in 1..Len(u) : u[i] = 46 ELSE 0
+        ip == IF dot = 0 THEN u ELSE SubSeq(u, 1, dot - 1)
+        fp == IF dot = 0 THEN <<>> ELSE SubSeq(u, dot + 1, Len(u))
+        digits(x) == \A i \in 1..Len(x) : IsDigit(x[i])
+        ipv == MagNat([i \in 1..Len(ip) |-> ip[Len(ip) + 1 - i] - 48])
+        fq == CASE fp = <<>> -> 0
+                [] fp = <<48>> \/ fp = <<48, 48>> -> 0
+                [] fp = <<50, 53>> -> 1
+                [] fp = <<53>> \/ fp = <<53, 48>> -> 2
+                [] fp = <<55, 53>> -> 3
+                [] OTHER -> -1
+        ok == ip # <<>> /\ Len(ip) <= 8 /\ digits(ip) /\ (dot = 0 \/ fp # <<>>) /\ fq >= 0
+    IN  IF ok THEN [ok |-> TRUE, q |-> (IF neg THEN -1 ELSE 1) * (4 * ipv + fq)] ELSE [ok |-> FALSE, q |-> 0]
+
+FormatQ(q) ==
+    LET a == IF q < 0 THEN -q ELSE q
+        frac == CASE a % 4 = 0 -> <<>> [] a % 4 = 1 -> <<46, 50, 53>> [] a % 4 = 2 -> <<46, 53>> [] OTHER -> <<46, 55, 53>>
+    IN  (IF q < 0 THEN <<45>> ELSE <<>>) \o Itoa(a \div 4) \o frac
 
 \* lexicographic byte order (for SORT ALPHA and canonical listings)
 RECURSIVE BytesLess(_, _)
